@@ -85,7 +85,7 @@ impl Property for C18 {
     const ID: &'static str = "C18";
 
     fn families(_tier: Tier) -> u32 {
-        8
+        9
     }
 
     fn strategy(_tier: Tier, family: u32) -> BoxedStrategy<Case> {
@@ -126,6 +126,33 @@ impl Property for C18 {
                 .prop_map(|(opts, exp, end_marker)| Kind::LzmaExpected { opts, exp, end_marker })
                 .boxed(),
         };
+        if family == 8 {
+            // MT LZMA2 units of 128-256 KiB that open with more than one stored chunk's worth of incompressible bytes
+            // followed by compressible data: stored and LZMA chunks inside one unit
+            return (
+                proptest::collection::vec((66_000u32..90_000, any::<u64>(), 10_000u32..40_000), 2..5),
+                opts_strategy(1 << 16, true),
+                131_072u64..262_144,
+                1u32..5,
+                size_plan(),
+                read_sizes_strategy(),
+            )
+                .prop_map(|(stretches, mut opts, unit, workers, plan, sizes)| {
+                    opts.dict_size = 65_536;
+                    let mut segs = Vec::new();
+                    for (noise, seed, text) in stretches {
+                        segs.push(Seg::Rand { len: noise, seed });
+                        segs.push(Seg::Text { len: text, seed: seed ^ 9 });
+                    }
+                    Case {
+                        data: Data { segs },
+                        kind: Kind::Lzma2Mt { opts, unit, workers },
+                        plan,
+                        sizes,
+                    }
+                })
+                .boxed();
+        }
         (unit_data(), kind, size_plan(), read_sizes_strategy())
             .prop_map(|(data, kind, plan, sizes)| Case { data, kind, plan, sizes })
             .boxed()
@@ -136,7 +163,7 @@ impl Property for C18 {
     }
 
     fn rule() -> &'static str {
-        "case = (data of 0-5 segments, writer with a block/member/chunk size below, at and above the 4-16 KiB dictionary, write plan incl. one huge write and many tiny ones). The harness's own walkers read the produced file: every XZ block and LZIP member holds at most max(size, dict) uncompressed bytes; the MT writers (real threads) cut units of exactly max(size, dict) except the last, and chunk_count() / member_count() of the MT readers equal the number of independent units (non-empty data); every file must also decode to the input. LZMAWriter with an expected size: a write crossing it fails, finish() short of it fails, otherwise the header carries the number of bytes written and the stream decodes. Non-trivial = more than two units or an expected size that differs from the data length. Distinct = hash of the case recipe."
+        "case = (data of 0-5 segments, writer with a block/member/chunk size below, at and above the 4-16 KiB dictionary, write plan incl. one huge write and many tiny ones; plus LZMA2WriterMT units of 128-256 KiB that open with more than 64 KiB of incompressible bytes followed by compressible data, so that stored and LZMA chunks share a unit). The harness's own walkers read the produced file: every XZ block and LZIP member holds at most max(size, dict) uncompressed bytes; the MT writers (real threads) cut units of exactly max(size, dict) except the last, and chunk_count() / member_count() of the MT readers equal the number of independent units (non-empty data); every file must also decode to the input. LZMAWriter with an expected size: a write crossing it fails, finish() short of it fails, otherwise the header carries the number of bytes written and the stream decodes. Non-trivial = more than two units or an expected size that differs from the data length. Distinct = hash of the case recipe."
     }
 
     fn floors(_tier: Tier) -> Vec<(&'static str, f64)> {
